@@ -169,8 +169,8 @@ def oracle_value(case):
         smax, xmax = float(np.abs(np.asarray(m['value'], dtype=float)).max()), float(np.abs(x).max())
         require(abs(smax - xmax) <= REL * xmax, lambda: '%s: stored numbers (max %.17g) are not the value in %r (max %.17g)' % (what, smax, u, xmax))
         key0 = None
-        if not shape:
-            key0 = K('uc.model:numpy-scalar-not-serialisable')
+        if not shape and isinstance(m['value'], (np.ndarray, np.integer)):
+            key0 = K('uc.model:numpy-scalar-not-serialisable')      # a numpy object json/xmltodict do not know
         payload = encode(DM([('quantity', m)]), enc, what, key=key0)
         if enc == 'xml' and not shape and 'np.' in payload:
             raise Violation('%s: XML text carries a numpy repr and cannot be read back: %s' % (what, payload[payload.find('<quantity>'):][:160]),
@@ -599,16 +599,25 @@ def oracle_elastic(case):
 
 
 CLAUSES = [
-    Clause('value', oracle_value, g.value_cases, quick=9000, thorough=180000,
+    Clause('value', oracle_value, g.value_cases, quick=14000, thorough=180000,
+           min_share={'nt': 0.3, 'cfg_differ': 0.2, 'enc_xml': 0.15, 'enc_json': 0.15, 'rank3': 0.08, 'rank4': 0.06, 'unit': 0.2,
+                      'error': 0.08, 'kind_i': 0.08},
            desc='uc.model -> (dict | JSON | XML) -> uc.value_unit / error_unit: shape, dtype kind, physical value; write and read '
                 'under different working units'),
-    Clause('box', oracle_box, g.box_cases, quick=3000, thorough=60000,
+    Clause('box', oracle_box, g.box_cases, quick=4000, thorough=50000,
+           min_share={'nt': 0.2, 'cfg_differ': 0.3, 'origin': 0.2, 'rotated': 0.2},
            desc='Box.model(length_unit) -> Box(model=) / Box.model(model=): cell and origin as physical lengths'),
-    Clause('atoms', oracle_atoms, g.atoms_cases, quick=5000, thorough=100000,
+    Clause('atoms', oracle_atoms, g.atoms_cases, quick=8000, thorough=100000,
+           min_share={'nt': 0.25, 'natoms1': 0.08, 'prop_s': 0.12, 'prop_i': 0.1, 'proprank3': 0.12, 'unit_prop': 0.12, 'subset': 0.05},
            desc='Atoms.model(prop_name/unit | prop_unit | defaults) -> Atoms(model=): every listed property, shapes, dtype kinds, units'),
-    Clause('system', oracle_system, g.system_cases, quick=9000, thorough=180000,
+    Clause('system', oracle_system, g.system_cases, quick=16000, thorough=220000,
+           min_share={'nt': 0.25, 'pos_scaled': 0.1, 'scaled_prop': 0.06, 'mass_first_none': 0.04, 'symbols_holes': 0.08,
+                      'masses_holes': 0.1, 'route_dump': 0.15, 'route_model': 0.15, 'route_dump_f': 0.04, 'route_dump_path': 0.03,
+                      'enc_xml': 0.15, 'cfg_differ': 0.15, 'natoms1': 0.07, 'proprank3': 0.12, 'prop_s': 0.1},
            desc='System.model/System(model=) and dump/load system_model (text, stream, path): cell, origin, pbc, symbols, masses, '
                 'every property incl. box-scaled storage, written and read under different working units'),
-    Clause('elastic', oracle_elastic, g.elastic_cases, quick=3000, thorough=60000,
+    Clause('elastic', oracle_elastic, g.elastic_cases, quick=4000, thorough=50000,
+           min_share={'nt': 0.35, 'unit': 0.25, 'cfg_differ': 0.3, 'norm_family': 0.25, 'fam_isotropic': 0.05, 'fam_rhombohedral': 0.05,
+                      'fam_triclinic': 0.05},
            desc='ElasticConstants.model(unit, crystal_system) -> ElasticConstants(model=) / .model(model=)'),
 ]
